@@ -418,3 +418,40 @@ unsafe impl GlobalAlloc for SimAlloc {
         new_ptr
     }
 }
+
+// ------------------------------------------------------------------------------------------------
+// harness output: the solver's default logger prints to stdout (fd 1); the harness keeps a private
+// duplicate of the original stdout and silences fd 1.
+
+static OUT_FD: std::sync::atomic::AtomicI32 = std::sync::atomic::AtomicI32::new(1);
+
+pub fn silence_stdout() {
+    unsafe {
+        let saved = libc::dup(1);
+        let devnull = libc::open(b"/dev/null\0".as_ptr() as *const libc::c_char, libc::O_WRONLY);
+        if saved >= 0 && devnull >= 0 {
+            libc::dup2(devnull, 1);
+            libc::close(devnull);
+            OUT_FD.store(saved, Ordering::SeqCst);
+        }
+    }
+}
+
+pub fn say(text: &str) {
+    let fd = OUT_FD.load(Ordering::SeqCst);
+    let mut buf = text.as_bytes().to_vec();
+    buf.push(b'\n');
+    let mut off = 0;
+    while off < buf.len() {
+        let n = unsafe { libc::write(fd, buf[off..].as_ptr() as *const libc::c_void, buf.len() - off) };
+        if n <= 0 {
+            break;
+        }
+        off += n as usize;
+    }
+}
+
+#[macro_export]
+macro_rules! say {
+    ($($arg:tt)*) => { $crate::kernel::sys::say(&format!($($arg)*)) };
+}
